@@ -54,6 +54,7 @@ structure State where
   eMaxLF : Vec := []
   started : Bool := false        -- `not _is_load_sequence_start`
   lastSample : Vec := []         -- `_last_sample`
+  prevLoad : Int := 0            -- `_previous_load`: load of the last processed turning point
   strainValues : List Int := []  -- `_strain_values` (first node)
   nFirst : Nat := 0              -- `_n_strain_values_first_run`
   recs : List Hyst := []         -- recorder content, in order
@@ -170,7 +171,8 @@ def process (law : Law) (st : State) (samples : List Vec) (flush : Bool) : State
   let loads : List Vec := turns.map fun p =>
     if p.1 < oldHead then st.lastSample else arr[p.1 - oldHead]!
   let st := { st with ts := ts', lastSample := samples.getLastD st.lastSample }
-  (loads.foldl (turnStep law) (st, 0)).1
+  let r := loads.foldl (turnStep law) (st, st.prevLoad)
+  { r.1 with prevLoad := r.2 }
 
 /-- `_adjust_samples_and_flush_for_hcm_first_run`: prepend a zero load step; flush iff the last
 sample is a turning point of the doubled (zero-prefixed) sequence. -/
